@@ -5,6 +5,8 @@
 set -u
 export GOFLAGS=-mod=mod GOPROXY=off GOSUMDB=off GOTOOLCHAIN=local
 export VERIF_ROOT="${VERIF_ROOT:-$(cd "$(dirname "$0")" && pwd)}"
+ARG2="${2:-}"
+[ "${1:-}" = replay ] && [ -n "$ARG2" ] && ARG2="$(readlink -f "$ARG2")"
 cd "$VERIF_ROOT/harness" || exit 2
 mkdir -p "$VERIF_ROOT/.build"
 BIN="$VERIF_ROOT/.build/vcheck"
@@ -33,7 +35,7 @@ build_shovel() {
 case "${1:-}" in
   build) build; build_race; build_shovel; exit 0 ;;
   C19) build C19; build_shovel; exec "$BIN" run C19 --tier "${2:-${VERIF_TIER:-quick}}" ;;
-  replay) build; exec "$BIN" replay "$2" ;;
+  replay) build; exec "$BIN" replay "$ARG2" ;;
   C18) build C18; build_race C18; exec "$BIN" run C18 --tier "${2:-${VERIF_TIER:-quick}}" --worker-exe "$BIN-race" ;;
   C[0-9][0-9]) build "$1"; exec "$BIN" run "$1" --tier "${2:-${VERIF_TIER:-quick}}" ;;
   *) echo "usage: $0 <Cxx> [quick|thorough] | replay <file> | build"; exit 2 ;;
